@@ -44,12 +44,16 @@ pub trait WordRead {
     spec fn cursor(&self) -> nat;
     /// no backend delivers more than `limit` words (streams are shorter than 2^64 bits)
     spec fn limit(&self) -> nat;
+    /// number of words of actual data: a strict backend fails only at or beyond it, a
+    /// zero-extended one never fails
+    spec fn len(&self) -> nat;
     fn read_word(&mut self) -> (r: Result<{{W}}, Self::Error>)
         ensures
             forall|i: nat| final(self).word_at(i) == old(self).word_at(i),
             final(self).limit() == old(self).limit(),
+            final(self).len() == old(self).len(),
             r is Ok ==> old(self).cursor() < old(self).limit() && r->Ok_0 == old(self).word_at(old(self).cursor()) && final(self).cursor() == old(self).cursor() + 1,
-            r is Err ==> final(self).cursor() == old(self).cursor(),
+            r is Err ==> final(self).cursor() == old(self).cursor() && old(self).cursor() >= old(self).len(),
     ;
 }
 
@@ -302,6 +306,8 @@ impl<WR: WordRead> BufBitReader<BE, WR> {
 //@SPEC             &&& forall|t: int| 0 <= t < r->Ok_0 ==> !#[trigger] rbit(false, &old(self).backend, old(self).pos(), t)
 //@SPEC             &&& rbit(false, &old(self).backend, old(self).pos(), r->Ok_0 as int)
 //@SPEC         },
+//@SPEC         // C09: an error only if no one-bit remains before the end of the data
+//@SPEC         r is Err ==> forall|t: int| 0 <= t && old(self).pos() + t < old(self).backend.len() * {{N}} ==> !#[trigger] rbit(false, &old(self).backend, old(self).pos(), t),
 //@INST <<UpcastableInto::<BB<WR>>::upcast(new_word)>> => <<(new_word as {{BB}})>>
 //@INST <<BB::<WR>::BITS>> => <<{{M}}usize>>
 //@INST <<WR::Word::BITS>> => <<{{N}}usize>>
@@ -312,7 +318,7 @@ impl<WR: WordRead> BufBitReader<BE, WR> {
 //@PROOF after=<<let mut result: u64 = self.bits_in_buffer as _;>> proof { assert forall|t: int| 0 <= t < nb0 implies !#[trigger] rbit(false, &old(self).backend, pos0, t) by { assert(!wbit(b0 as nat, ({{M}} - 1 - t) as nat)); } }
 //@LOOP 1 invariant
 //@LOOP 1     forall|i: nat| self.backend.word_at(i) == old(self).backend.word_at(i),
-//@LOOP 1     self.backend.limit() == old(self).backend.limit(),
+//@LOOP 1     self.backend.limit() == old(self).backend.limit(), self.backend.len() == old(self).backend.len(),
 //@LOOP 1     self.backend.limit() * {{N}} + {{M}} <= u64::MAX,
 //@LOOP 1     self.backend.cursor() <= self.backend.limit(),
 //@LOOP 1     pos0 >= 0, pos0 == old(self).pos(),
@@ -325,11 +331,14 @@ impl<WR: WordRead> BufBitReader<BE, WR> {
 //@END
 
 //@FN file=src/impls/buf_bit_reader.rs item=/impl<WR: WordRead, RP: ReadParams> BitRead<BE> for BufBitReader<BE, WR, RP>/ name=skip_bits
+//@ATTR #[verifier::loop_isolation(false)]
 //@SIG fn skip_bits_be(&mut self, mut n_bits: usize) -> (r: Result<(), WR::Error>)
 //@SPEC     requires old(self).inv(),
 //@SPEC     ensures
 //@SPEC         forall|i: nat| final(self).backend.word_at(i) == old(self).backend.word_at(i),
 //@SPEC         r is Ok ==> final(self).inv() && final(self).pos() == old(self).pos() + n_bits,
+//@SPEC         // C09: an error only if the skip needs a word beyond the end of the data
+//@SPEC         r is Err ==> old(self).pos() + n_bits > old(self).backend.len() * {{N}},
 //@INST <<UpcastableInto::<BB<WR>>::upcast(new_word)>> => <<(new_word as {{BB}})>>
 //@INST <<BB::<WR>::BITS>> => <<{{M}}usize>>
 //@INST <<WR::Word::BITS>> => <<{{N}}usize>>
@@ -337,10 +346,10 @@ impl<WR: WordRead> BufBitReader<BE, WR> {
 //@PROOF after=<<self.buffer <<= n_bits;>> proof { assert forall|j: nat| j < {{M}} implies #[trigger] wbit(self.buffer as nat, j) == (j >= {{M}} - self.bits_in_buffer && sbit(false, &self.backend, self.pos() + {{M}} - 1 - j)) by { lemma_shl_bits(b0, n_bits as nat, j); } }
 //@LOOP 1 invariant
 //@LOOP 1     forall|i: nat| self.backend.word_at(i) == old(self).backend.word_at(i),
-//@LOOP 1     self.backend.limit() == old(self).backend.limit(),
+//@LOOP 1     self.backend.limit() == old(self).backend.limit(), self.backend.len() == old(self).backend.len(),
 //@LOOP 1     self.backend.limit() * {{N}} + {{M}} <= u64::MAX,
 //@LOOP 1     self.backend.cursor() <= self.backend.limit(),
-//@LOOP 1     pos0 >= 0, pos0 == old(self).pos(),
+//@LOOP 1     pos0 >= 0, pos0 == old(self).pos(), n_bits >= 1,
 //@LOOP 1     self.backend.cursor() * {{N}} + n_bits == pos0 + n0,
 //@LOOP 1 decreases n_bits,
 //@EPILOGUE proof { assert forall|j: nat| j < {{M}} implies #[trigger] wbit(self.buffer as nat, j) == (j >= {{M}} - self.bits_in_buffer && sbit(false, &self.backend, self.pos() + {{M}} - 1 - j)) by { lemma_shl1_bits(new_word as {{BB}}, ({{M}} - 1 - self.bits_in_buffer) as nat, j); if j >= {{M}} - self.bits_in_buffer { lemma_upcast_bits(new_word, (j - ({{M}} - self.bits_in_buffer)) as nat); lemma_sbit_word(false, &self.backend, (self.backend.cursor() - 1) as nat, n_bits + {{M}} - 1 - j); } } }
@@ -370,6 +379,8 @@ impl<WR: WordRead> BufBitReader<LE, WR> {
 //@SPEC             &&& forall|t: int| 0 <= t < r->Ok_0 ==> !#[trigger] rbit(true, &old(self).backend, old(self).pos(), t)
 //@SPEC             &&& rbit(true, &old(self).backend, old(self).pos(), r->Ok_0 as int)
 //@SPEC         },
+//@SPEC         // C09: an error only if no one-bit remains before the end of the data
+//@SPEC         r is Err ==> forall|t: int| 0 <= t && old(self).pos() + t < old(self).backend.len() * {{N}} ==> !#[trigger] rbit(true, &old(self).backend, old(self).pos(), t),
 //@INST <<UpcastableInto::<BB<WR>>::upcast(new_word)>> => <<(new_word as {{BB}})>>
 //@INST <<BB::<WR>::BITS>> => <<{{M}}usize>>
 //@INST <<WR::Word::BITS>> => <<{{N}}usize>>
@@ -380,7 +391,7 @@ impl<WR: WordRead> BufBitReader<LE, WR> {
 //@PROOF after=<<let mut result: u64 = self.bits_in_buffer as _;>> proof { assert forall|t: int| 0 <= t < nb0 implies !#[trigger] rbit(true, &old(self).backend, pos0, t) by { assert(!wbit(b0 as nat, t as nat)); } }
 //@LOOP 1 invariant
 //@LOOP 1     forall|i: nat| self.backend.word_at(i) == old(self).backend.word_at(i),
-//@LOOP 1     self.backend.limit() == old(self).backend.limit(),
+//@LOOP 1     self.backend.limit() == old(self).backend.limit(), self.backend.len() == old(self).backend.len(),
 //@LOOP 1     self.backend.limit() * {{N}} + {{M}} <= u64::MAX,
 //@LOOP 1     self.backend.cursor() <= self.backend.limit(),
 //@LOOP 1     pos0 >= 0, pos0 == old(self).pos(),
@@ -393,11 +404,14 @@ impl<WR: WordRead> BufBitReader<LE, WR> {
 //@END
 
 //@FN file=src/impls/buf_bit_reader.rs item=/impl<WR: WordRead, RP: ReadParams> BitRead<LE> for BufBitReader<LE, WR, RP>/ name=skip_bits
+//@ATTR #[verifier::loop_isolation(false)]
 //@SIG fn skip_bits_le(&mut self, mut n_bits: usize) -> (r: Result<(), WR::Error>)
 //@SPEC     requires old(self).inv(),
 //@SPEC     ensures
 //@SPEC         forall|i: nat| final(self).backend.word_at(i) == old(self).backend.word_at(i),
 //@SPEC         r is Ok ==> final(self).inv() && final(self).pos() == old(self).pos() + n_bits,
+//@SPEC         // C09: an error only if the skip needs a word beyond the end of the data
+//@SPEC         r is Err ==> old(self).pos() + n_bits > old(self).backend.len() * {{N}},
 //@INST <<UpcastableInto::<BB<WR>>::upcast(new_word)>> => <<(new_word as {{BB}})>>
 //@INST <<BB::<WR>::BITS>> => <<{{M}}usize>>
 //@INST <<WR::Word::BITS>> => <<{{N}}usize>>
@@ -405,10 +419,10 @@ impl<WR: WordRead> BufBitReader<LE, WR> {
 //@PROOF after=[[self.buffer >>= n_bits;]] proof { assert forall|j: nat| j < {{M}} implies #[trigger] wbit(self.buffer as nat, j) == (j < self.bits_in_buffer && sbit(true, &self.backend, self.pos() + j)) by { lemma_shr_bits(b0, n_bits as nat, j); } }
 //@LOOP 1 invariant
 //@LOOP 1     forall|i: nat| self.backend.word_at(i) == old(self).backend.word_at(i),
-//@LOOP 1     self.backend.limit() == old(self).backend.limit(),
+//@LOOP 1     self.backend.limit() == old(self).backend.limit(), self.backend.len() == old(self).backend.len(),
 //@LOOP 1     self.backend.limit() * {{N}} + {{M}} <= u64::MAX,
 //@LOOP 1     self.backend.cursor() <= self.backend.limit(),
-//@LOOP 1     pos0 >= 0, pos0 == old(self).pos(),
+//@LOOP 1     pos0 >= 0, pos0 == old(self).pos(), n_bits >= 1,
 //@LOOP 1     self.backend.cursor() * {{N}} + n_bits == pos0 + n0,
 //@LOOP 1 decreases n_bits,
 //@EPILOGUE proof { assert forall|j: nat| j < {{M}} implies #[trigger] wbit(self.buffer as nat, j) == (j < self.bits_in_buffer && sbit(true, &self.backend, self.pos() + j)) by { lemma_shr_bits(new_word as {{BB}}, n_bits as nat, j); if j + n_bits < {{M}} { lemma_upcast_bits(new_word, (j + n_bits) as nat); if j + n_bits < {{N}} { lemma_sbit_word(true, &self.backend, (self.backend.cursor() - 1) as nat, j + n_bits); } } } }
